@@ -10,11 +10,13 @@ mod c03;
 mod c04;
 mod c05;
 mod c06;
+mod c07;
 mod c08;
 mod c09;
 mod c10;
 mod c11;
 mod c12;
+mod c13;
 mod c16;
 mod c17;
 mod c19;
@@ -37,7 +39,7 @@ mod wire;
 use engine::{Check, Tier};
 
 fn registry() -> Vec<&'static dyn Check> {
-    vec![&c02::C02, &c03::C03, &c04::C04, &c05::C05, &c06::C06, &c08::C08, &c09::C09, &c10::C10, &c11::C11, &c12::C12, &c16::C16, &c17::C17, &c19::C19, &c20::C20]
+    vec![&c02::C02, &c03::C03, &c04::C04, &c05::C05, &c06::C06, &c07::C07, &c08::C08, &c09::C09, &c10::C10, &c11::C11, &c12::C12, &c13::C13, &c16::C16, &c17::C17, &c19::C19, &c20::C20]
 }
 
 fn find(id: &str) -> &'static dyn Check {
